@@ -307,13 +307,12 @@ def fold_float_str_stage(ctx: vlib.Ctx, exe: str | None) -> None:
             case = {"kind": "fold_float", "op": op, "left": repr(l), "right": repr(r), "impl": f"{gk} {got!r}", "cpython": f"{ek} {v!r}"}
             big = any(isinstance(x, int) and abs(x) >= 2 ** 1024 for x in (l, r))
             if gk != "ok":
-                if gk == "OverflowError" and big and op != "**":
-                    key = "F7:fold-float-int-operand-too-large-raises-OverflowError"
-                else:
-                    key = f"fold-float-raise:{op}:{l!r}:{r!r}"
-                ctx.violation(key, f"constant_fold_binary_float_op({op!r}, {l!r}, {r!r}) raises {gk} (mypy INTERNAL ERROR on "
-                              f"`X: Final = {l!r} {op} {r!r}`); CPython: {ek}", case)
+                # fold_float_never_raises: no exception may escape the folding code (F7, fixed: int operand too large for a float)
+                ctx.violation(f"fold-float-raise:{op}:{l!r}:{r!r}"[:200], f"constant_fold_binary_float_op({op!r}, {l!r}, {r!r}) raises {gk} (mypy INTERNAL ERROR on "
+                              f"`X: Final = {l!r} {op} {r!r}`); CPython: {ek}"[:600], case)
                 continue
+            if big and got is not None:
+                ctx.broke("C", "fold_float_unconvertible: an int operand that does not convert to float must not be folded", f"{op} {l!r} {r!r}"[:300], case)
             if got is not None:
                 folded += 1
                 if not (ek == "ok" and type(v) is float and type(got) is float and (fbits(v) == fbits(got) or (math.isnan(v) and math.isnan(got)))):
